@@ -162,6 +162,7 @@ def cases(tier, seed):
                         out.append({"kind": "cantera", "recipe": rec_, "kept": kept, "seed": seed, "w": 40, "layout": lay, "pressure": pr})
     out.append({"kind": "cantera", "recipe": "USER_S", "kept": "Y(O2) temp", "seed": seed, "w": 40, "layout": 1, "pressure": 1.0})
     out.append({"kind": "cantera", "recipe": "ENT", "kept": "Y(O2) temp", "seed": seed, "w": 40, "layout": 2, "pressure": 1.0})
+    out.append({"kind": "cantera", "recipe": "RRi", "kept": "temp", "seed": seed, "w": 60, "layout": 1, "pressure": 1.0, "all_reactions": True})
     # a planar flame (state invariant along x and y); a pressure at the far end of the range (1500 atm)
     for rec_ in ("HRR", "ENT"):
         out.append({"kind": "cantera", "recipe": rec_, "kept": "temp", "seed": seed, "w": 40, "layout": 1, "pressure": 1.0, "planar": True})
@@ -256,8 +257,15 @@ def run_user(case, workdir, rec):
                     nonlocal k
                     k += 1
                     out = os.path.join(workdir, "ck%d" % k)
+                    # (every fourth cook names plotfile and output through pathlib.Path objects: honoured or refused)
+                    import pathlib
+                    aspath = (k % 4 == 0) and not plan
                     with vpool.controlled(plan) as ctl:
-                        r = call(lambda: Chef(path, recipe=rpath, outfile=out, serial=serial, kept_fields=kept).cook())
+                        r = call(lambda: Chef(pathlib.Path(path) if aspath else path, recipe=rpath, outfile=pathlib.Path(out) if aspath else out,
+                                              serial=serial, kept_fields=kept).cook())
+                        if aspath and r[0] == "exc":
+                            shutil.rmtree(out, ignore_errors=True)
+                            r = call(lambda: Chef(path, recipe=rpath, outfile=out, serial=serial, kept_fields=kept).cook())
                     return ctl, (r, out)
                 runs = explorer.explore(run, bound=1) if (case["schedules"] and not serial and kept in (None, "Z temp")) else [({},) + run({})]
                 digests = set()
@@ -457,8 +465,11 @@ def run_cantera(case, workdir, rec):
         kw["species"] = ["H2"]
         prop, idx, new_names = "mix_diff_coeffs_mass", [0], ["DI(H2)"]
     elif rname == "RRi":
-        kw["reactions"] = [0, 5, 83]
-        prop, idx, new_names = "net_rates_of_progress", [0, 5, 83], ["R0", "R5", "R83"]
+        rl_ = [0, 5, 83]
+        if case.get("all_reactions"):
+            rl_ = list(range(83, -1, -1))         # every reaction of the mechanism, last first (as many as the mechanism has)
+        kw["reactions"] = rl_
+        prop, idx, new_names = "net_rates_of_progress", list(rl_), ["R%d" % i for i in rl_]
     elif rname == "HRR":
         prop, idx, new_names = "heat_release_rate", None, ["HeatRelease"]
     elif rname == "ENT":
